@@ -10,9 +10,14 @@ import (
 )
 
 type loopHead struct {
+	frameRegion, frameLo, frameHi *Term // declared byte frame of the loop (verif_frame_), nil if none
+	frameSeq  uint64
+	headMem   *Mem
 	dec       *Term // value of the decreases measure at the head (nil if none)
 	names     map[string]bool
 	entryVals map[int]*Term // vAtEntry values, by call-site ordinal
+	entrySlices map[int][]*Term
+	entrySeq  uint64
 }
 
 type loopEvalCtx struct {
@@ -143,7 +148,7 @@ func (e *Engine) enterLoop(fr *Frame, li *loopInfo, cur *State) *State {
 		fr.heads = map[*loopInfo]*loopHead{}
 	}
 	// 1. invariant holds on entry
-	h := &loopHead{entryVals: map[int]*Term{}}
+	h := &loopHead{entryVals: map[int]*Term{}, entrySlices: map[int][]*Term{}}
 	fr.heads[li] = h
 	pre := cur.clone()
 	e.loopEval = &loopEvalCtx{head: h, entry: true}
@@ -204,6 +209,26 @@ func (e *Engine) enterLoop(fr *Frame, li *loopInfo, cur *State) *State {
 	for _, name := range mods {
 		fullHavoc(name)
 	}
+	// A declared frame (verif_frame_<Func>_<k>) fixes what the loop may write in
+	// byte memory: the given slice's range plus memory it allocates itself. Every
+	// write of the body is checked against it at the back edges and loop exits.
+	declared := map[string]bool{}
+	if ff := e.frames[key]; ff != nil {
+		e.loopEval = &loopEvalCtx{head: h, entry: true}
+		fv := e.evalLoopFnQuiet(fr, cur.clone(), ff, li)
+		e.loopEval = nil
+		if em, ok := entryMems[byteMemName]; ok || true {
+			if !ok {
+				em = e.mem(st, byteMemName, elemKS, 8)
+			}
+			h.frameRegion, h.frameLo, h.frameHi = fv.T[0], fv.T[1], BVAdd(fv.T[1], fv.T[2])
+			h.frameSeq = e.allocSeq
+			nm := em.HavocRange(h.frameRegion, h.frameLo, h.frameHi).HavocFresh(h.frameSeq)
+			st.mems[byteMemName] = nm
+			h.headMem = nm
+			declared[byteMemName] = true
+		}
+	}
 	// Frame discovery: run the body once from the fully havoc'd head and look at
 	// the regions actually written. Two-key (region, index) memories whose writes
 	// only target regions allocated inside the loop, or regions named by
@@ -259,7 +284,7 @@ func (e *Engine) enterLoop(fr *Frame, li *loopInfo, cur *State) *State {
 			vprefix := fmt.Sprintf("loop%d.", loopID)
 			for _, name := range mods {
 				m, ok := entryMems[name]
-				if !ok || (len(m.ksort) != 2 && len(m.ksort) != 1) || strings.HasPrefix(name, "map:") {
+				if !ok || (len(m.ksort) != 2 && len(m.ksort) != 1) || strings.HasPrefix(name, "map:") || declared[name] {
 					continue
 				}
 				var regions []*Term
@@ -308,7 +333,7 @@ func (e *Engine) enterLoop(fr *Frame, li *loopInfo, cur *State) *State {
 	}
 	for g := range st.ghost {
 		if e.loopTouchesGhost(li, g) {
-			st.ghost[g] = FreshVar("loop.ghost."+g, 64)
+			st.ghost[g] = FreshVar("loop.ghost."+g, st.ghost[g].sort)
 		}
 	}
 	// 3. assume the invariant
@@ -353,6 +378,7 @@ func (e *Engine) backEdge(fr *Frame, li *loopInfo, s *State, from *ssa.BasicBloc
 	if inv == nil || h == nil {
 		unsup("back edge of loop %d without invariant", li.ord)
 	}
+	e.loopFrameCheck(fr, li, s)
 	e.loopEval = &loopEvalCtx{head: h}
 	iv := e.evalLoopFn(fr, s, inv, li)
 	e.loopEval = nil
@@ -628,4 +654,29 @@ func isRangeLoop(li *loopInfo) bool {
 		}
 	}
 	return false
+}
+
+// loopFrameCheck: every write to byte memory since the loop head lies inside the
+// declared frame of the loop or in memory allocated since the loop was entered.
+func (e *Engine) loopFrameCheck(fr *Frame, li *loopInfo, s *State) {
+	h := fr.heads[li]
+	if h == nil || h.headMem == nil {
+		return
+	}
+	fin := s.mems[byteMemName]
+	if fin == nil || fin == h.headMem {
+		return
+	}
+	hc := &harnessCtx{modifies: []modClause{{kind: "bytes", elem: types.Typ[types.Uint8], region: h.frameRegion, lo: h.frameLo, hi: h.frameHi}}}
+	var site ssa.Instruction
+	if len(li.head.Instrs) > 0 {
+		site = li.head.Instrs[0]
+	}
+	if !e.frameByWrites(fr, s, byteMemName, fin, h.headMem, h.frameSeq, hc, site) {
+		ss := fr.spec
+		fr.spec = false
+		tmp := s.clone()
+		e.oblige(fr, tmp, fmt.Sprintf("loop-frame.loop%d", li.ord), site, False, "writes of the loop body cannot be related to its declared frame")
+		fr.spec = ss
+	}
 }
